@@ -70,6 +70,51 @@ fn run(v: &serde_lite::Value) -> String {
             let ts = TimeScale::new(f(v.get("dur")), f(v.get("delay")), rep(v.get("repeat")), v.get("reverse") == "true");
             format!("{{\"duration\":{},\"delay\":{},\"cycle\":{}}}", ts.get_duration().to_bits(), ts.get_delay().to_bits(), ts.get_cycle_duration().to_bits())
         }
+        "ease" => {
+            use mina_core::easing::{Easing, EasingFunction};
+            let e = match v.get("easing") {
+                "Linear" => Easing::Linear, "Ease" => Easing::Ease, "In" => Easing::In, "Out" => Easing::Out, "InOut" => Easing::InOut,
+                "InSine" => Easing::InSine, "OutSine" => Easing::OutSine, "InOutSine" => Easing::InOutSine,
+                "InQuad" => Easing::InQuad, "OutQuad" => Easing::OutQuad, "InOutQuad" => Easing::InOutQuad,
+                "InCubic" => Easing::InCubic, "OutCubic" => Easing::OutCubic, "InOutCubic" => Easing::InOutCubic,
+                "InQuart" => Easing::InQuart, "OutQuart" => Easing::OutQuart, "InOutQuart" => Easing::InOutQuart,
+                "InQuint" => Easing::InQuint, "OutQuint" => Easing::OutQuint, "InOutQuint" => Easing::InOutQuint,
+                "InExpo" => Easing::InExpo, "OutExpo" => Easing::OutExpo, "InOutExpo" => Easing::InOutExpo,
+                "InCirc" => Easing::InCirc, "OutCirc" => Easing::OutCirc, "InOutCirc" => Easing::InOutCirc,
+                "InBack" => Easing::InBack, "OutBack" => Easing::OutBack, "InOutBack" => Easing::InOutBack,
+                other => panic!("unknown easing {}", other),
+            };
+            format!("{{\"r\":{}}}", e.calc(f(v.get("x"))).to_bits())
+        }
+        "lerp" => {
+            use mina_core::interpolation::Lerp;
+            let x = f(v.get("x"));
+            macro_rules! int_case {
+                ($t:ty) => {{
+                    let a: $t = v.get("a").parse().unwrap(); let b: $t = v.get("b").parse().unwrap();
+                    let r = a.lerp(&b, x);
+                    let (lo, hi) = if a <= b { (a, b) } else { (b, a) };
+                    format!("{{\"r\":\"{}\",\"a\":\"{}\",\"b\":\"{}\",\"r_show\":\"{}\",\"a_show\":\"{}\",\"b_show\":\"{}\",\"in_range\":{}}}", r, a, b, r, a, b, lo <= r && r <= hi)
+                }};
+            }
+            match v.get("ty") {
+                "f32" => {
+                    let a = f(v.get("a")); let b = f(v.get("b")); let r = a.lerp(&b, x);
+                    let (lo, hi) = if a <= b { (a, b) } else { (b, a) };
+                    format!("{{\"r\":\"{}\",\"a\":\"{}\",\"b\":\"{}\",\"r_show\":\"{:?}\",\"a_show\":\"{:?}\",\"b_show\":\"{:?}\",\"in_range\":{}}}", r.to_bits(), a.to_bits(), b.to_bits(), r, a, b, lo <= r && r <= hi)
+                }
+                "f64" => {
+                    let a = f64::from_bits(u64::from_str_radix(v.get("a"), 16).unwrap()); let b = f64::from_bits(u64::from_str_radix(v.get("b"), 16).unwrap());
+                    let r = a.lerp(&b, x);
+                    let (lo, hi) = if a <= b { (a, b) } else { (b, a) };
+                    format!("{{\"r\":\"{}\",\"a\":\"{}\",\"b\":\"{}\",\"r_show\":\"{:?}\",\"a_show\":\"{:?}\",\"b_show\":\"{:?}\",\"in_range\":{}}}", r.to_bits(), a.to_bits(), b.to_bits(), r, a, b, lo <= r && r <= hi)
+                }
+                "i8" => int_case!(i8), "u8" => int_case!(u8), "i16" => int_case!(i16), "u16" => int_case!(u16),
+                "i32" => int_case!(i32), "u32" => int_case!(u32), "i64" => int_case!(i64), "u64" => int_case!(u64),
+                "usize" => int_case!(usize),
+                t => format!("{{\"error\":\"unknown type {}\"}}", t),
+            }
+        }
         _ => format!("{{\"error\":\"unknown kind {}\"}}", kind),
     }
 }
